@@ -68,7 +68,7 @@ NEED = {   # vacuity guards: the run is not a verdict unless these step kinds oc
 }
 
 # properties decided by their own pipeline module (vlib/<module>.py: main(prop, tier, seed, argv))
-OTHER = {"C18": "resarith", "C19": "sorting", "C20": "events", "C15": "confvalid", "C17": "placement"}
+OTHER = {"C14": "conc", "C18": "resarith", "C19": "sorting", "C20": "events", "C15": "confvalid", "C17": "placement"}
 # C13: besides its own checks, every ledger invariant counts in the malformed-request profile ("leaves accounting as it was")
 PREFIXES = {"C13": ["C13_", "C03_", "C01_NodeLedger", "C09_Views", "C05_UserUsage", "C05_GroupUsage"]}
 MODEL_PROPS = {"C01", "C02", "C03", "C04", "C06", "C09", "C10"}   # properties the generative model speaks about
